@@ -1,46 +1,9 @@
-(* Proofs/C19Ttv.v — tensor.ttv over the generated tt_dimscheck: out-of-range modes are rejected (by the Python
-   index check on self.shape[dims[i]], since tt_dimscheck has no upper bound). *)
+(* Proofs/C19Ttv.v — tensor.ttv / tensor.ttm over the generated tt_dimscheck. *)
 From Coq Require Import List ZArith Bool Lia Permutation.
 From PV Require Import Np.NpZ Gen.GenUtils Proofs.NpZProofs Proofs.UtilsProofs Model.C19Guards Proofs.C19Proofs.
 Import ListNotations.
 Local Open Scope Z_scope.
 
-Lemma dimscheck_some_form N M d :
-  tt_dimscheck N (Some M) (Some d) None =
-  if np_any (np_lt_s d 0) then Err
-  else if M >? N then Err
-  else if negb ((M =? N) || (M =? zlen d)) then Err
-  else if zlen d =? M then Ok (np_sort d, Some (np_argsort d))
-  else Ok (np_sort d, Some (np_sort d)).
-Proof. rewrite tt_dimscheck_bridge. unfold H_dimscheck, H_dims. cbn [bind]. reflexivity. Qed.
-
-Lemma in_combine_r_ex {A B} (l : list A) (l' : list B) y :
-  length l = length l' -> In y l' -> exists x, In (x, y) (combine l l').
-Proof.
-  revert l. induction l' as [|b l' IH]; intros [|a l] Hl Hin; cbn in *; try discriminate; try contradiction.
-  destruct Hin as [->|Hin]; [exists a; now left|].
-  destruct (IH l) as [x Hx]; auto. exists x. now right.
-Qed.
-
-Lemma ttv_sizes_err s vlens sd vidx x :
-  length vidx = length sd -> In x sd -> ndim s <= x -> guard_ttv_sizes s vlens sd vidx = Err.
-Proof.
-  intros Hl Hin Hx. destruct (guard_ttv_sizes s vlens sd vidx) as [[]|] eqn:E; [|reflexivity]. exfalso.
-  apply (f_equal is_ok) in E. unfold guard_ttv_sizes in E. rewrite is_ok_chk_all in E. cbn in E.
-  rewrite forallb_forall in E. destruct (in_combine_r_ex vidx sd x Hl Hin) as [v Hv].
-  specialize (E _ Hv). cbn in E. rewrite !is_ok_andthen, !is_ok_chk in E.
-  apply andb_true_iff in E as [_ E]. apply andb_true_iff in E as [E _].
-  unfold np_idx_ok in E. apply andb_true_iff in E as [_ E]. apply Z.ltb_lt in E. lia.
-Qed.
-
 Theorem tensor_ttv_rejects_out_of_range s vlens d x :
   In x d -> ndim s <= x -> guard_tensor_ttv s vlens (Some d) None = Err.
-Proof.
-  intros Hin Hx. unfold guard_tensor_ttv. rewrite dimscheck_some_form.
-  assert (Hs : In x (np_sort d)) by (apply (Permutation_in _ (Permutation_sym (np_sort_perm d))); exact Hin).
-  assert (Ls : length (np_sort d) = length d) by (apply Permutation_length, np_sort_perm).
-  destruct (np_any (np_lt_s d 0)); [reflexivity|]. destruct (zlen vlens >? ndim s); [reflexivity|].
-  destruct (negb _); [reflexivity|]. destruct (zlen d =? zlen vlens).
-  - rewrite (ttv_sizes_err s vlens (np_sort d) (np_argsort d) x); auto. now rewrite np_argsort_length.
-  - rewrite (ttv_sizes_err s vlens (np_sort d) (np_sort d) x); auto.
-Qed.
+Proof. intros. eapply is_err_ttv_of_dimscheck, dimscheck_rejects_out_of_range; eauto. Qed.
